@@ -125,6 +125,12 @@ impl PaddingFactory {
                 if min_val <= 0 || max_val <= 0 {
                     continue;
                 }
+                // Sizes are handed out as i32: a bound that does not fit would wrap to a
+                // negative size (or to the check mark) and make the sender's padding loop
+                // allocate without bound. Such an item is invalid like a non-positive one.
+                if min_val > i32::MAX as i64 || max_val > i32::MAX as i64 {
+                    continue;
+                }
 
                 let (min_val, max_val) = (min_val.min(max_val), min_val.max(max_val));
 
